@@ -371,3 +371,49 @@ def context_forwarding_rule(chk, eng: Engine, rule: str) -> None:
                                     "vacuously true) and trees that violate the constraint are accepted", keyparts=f"context-dropped|{k.name}.{m.name}|{c_.func.attr}|{c}")
     if n < 20:
         raise AnalysisError(f"only {n} context-forwarding call sites found in the search and constraint classes")
+
+
+# ---------------------------------------------------------------- bindings are written into owned dictionaries
+def owned_binding_rule(chk, eng: Engine, rule: str) -> None:
+    """A quantifier binds its variable with `scope[<bound>] = ...` / `local_variables[<name>] = ...` and evaluates its body.  The dictionary
+    it writes must be its own (a copy made in this call).  Writing into the caller's dictionary lets the binding outlive the quantifier: a
+    sibling or the next iteration of an enclosing quantifier resolves the bound name to the stale tree (visible when the bound name is also
+    a grammar symbol), and lazy / eager evaluation - which visit different numbers of elements - leave different residues."""
+    base = eng.cls("fandango.constraints.base", "GeneticBase")
+    n = 0
+    for k in [base] + base.all_subclasses():
+        for m in k.methods.values():
+            ctx = [p_ for p_ in m.params() if p_ in ("scope", "local_variables")]
+            if not ctx:
+                continue
+            for w in walk_local(m.node):
+                tg = []
+                if isinstance(w, (ast.Assign, ast.AugAssign)):
+                    tg = [t_ for t_ in (w.targets if isinstance(w, ast.Assign) else [w.target]) if isinstance(t_, ast.Subscript) and isinstance(t_.value, ast.Name)]
+                elif isinstance(w, ast.Call) and isinstance(w.func, ast.Attribute) and w.func.attr in ("update", "setdefault", "pop", "clear") and isinstance(w.func.value, ast.Name):
+                    tg = [ast.Subscript(value=w.func.value, slice=ast.Constant(value=None), ctx=ast.Store())]
+                for t_ in tg:
+                    name = t_.value.id  # type: ignore[union-attr]
+                    if name not in ctx:
+                        continue
+                    n += 1
+                    # every definition of `name` that can reach the write: the parameter itself or local re-bindings
+                    defs = [a.value for a in walk_local(m.node) if isinstance(a, ast.Assign) and any(isinstance(x, ast.Name) and x.id == name for x in a.targets) and a.lineno < w.lineno]
+
+                    def owned(v: ast.AST) -> bool:
+                        if isinstance(v, (ast.Dict, ast.DictComp)):
+                            return True
+                        if isinstance(v, ast.Call) and call_name(v) in ("dict", "copy", "deepcopy"):
+                            return True
+                        if isinstance(v, ast.Call) and isinstance(v.func, ast.Attribute) and v.func.attr == "copy":
+                            return True
+                        return False
+                    if defs and all(owned(v) for v in defs):
+                        chk.ok(rule, m.fq, w.lineno, f"`{short(w, 50)}` writes into a dictionary built in this call (`{name} = {short(defs[-1], 30)}`)")
+                    else:
+                        how = f"`{name} = {short(defs[-1], 30)}` may still be the caller's dictionary" if defs else f"`{name}` is the caller's dictionary"
+                        chk.bad(rule, eng.relfile(m), w.lineno, m.fq, f"`{short(w, 50)}` binds into a dictionary the method does not own ({how})",
+                                "the binding outlives the quantifier: with `forall <x> in <item>: exists <d> in <x>..<d>: ...` the <d> bound for the previous <item> is used when the domain "
+                                "of the next one is resolved - wrong verdicts, and lazy and eager evaluation disagree", keyparts=f"binding-into-callers-dict|{k.name}.{m.name}|{name}")
+    if n < 4:
+        raise AnalysisError(f"only {n} binding writes found in the constraint classes")
